@@ -1,6 +1,7 @@
 """C06 — sampling renders the schedule exactly."""
 from vmon import gen, prog
 from vmon.rendermon import RenderMonitor
+from vmon.snap import snapshot
 
 LEVEL = "exploration"
 RULE = ("online-generated histories (global/local/multi-target channels, DMM with weighted maps, EOM blocks, SLM mask, "
@@ -12,7 +13,7 @@ ASSUMPTIONS = ["timeline read from Sequence._schedule; reference renderer shares
                "phase is only required over real pulses; nanoseconds where two drives of one basis overlap on an atom are gray for the phase"]
 TIERS = {"quick": dict(cases=1200, shards=8, case_timeout=120, shard_timeout=900),
          "thorough": dict(cases=20000, shards=16, case_timeout=120, shard_timeout=3000)}
-FLOORS = {"quick": {"channel_arrays_checked": 2000, "atom_views_checked": 2000, "extensions_checked": 2000, "ring_dmm_scripts_rendered": 30},
+FLOORS = {"quick": {"channel_arrays_checked": 2000, "atom_views_checked": 2000, "extensions_checked": 2000, "ring_dmm_scripts_rendered": 30, "zero_length_retargets_at_the_end_of_an_eom_block": 10},
           "thorough": {"channel_arrays_checked": 30000}}
 WEIGHTS = {"sample": 0, "str": 0, "to_abstract_repr": 0, "build_copy": 0, "queries": 0, "measure": 0.05,
            "config_detuning_map": 1.5, "add_dmm_detuning": 3, "config_slm_mask": 1.0, "target": 3}
@@ -93,7 +94,56 @@ def ring_dmm_script(ctx, idx, rng):
     ctx.mark_nontrivial(("ringscript", idx))
 
 
+def eom_end_retarget_script(ctx, idx, rng):
+    """Directed history: a local channel whose EOM controls both beams (off-detuning 0: idle periods are plain delays,
+    no buffer is due when the mode is left long after the last pulse) leaves EOM mode exactly at its end and is
+    retargeted at once with a zero retarget time - a zero-duration slot at the very end of the channel."""
+    import math
+
+    bw = gen.pick(rng, [4.0, 8.0, 20.0])
+    ch = {"id": "rl", "cls": "Rydberg", "addr": "Local", "max_amp": 15.0, "max_abs_detuning": 40.0, "clock_period": gen.pick(rng, [1, 4]),
+          "min_duration": gen.pick(rng, [1, 16]), "max_duration": None, "mod_bandwidth": bw, "min_retarget_interval": 0,
+          "fixed_retarget_t": gen.pick(rng, [0, 0, 12]), "max_targets": 2,
+          "eom": {"mod_bandwidth": gen.pick(rng, [24.0, 40.0]), "limiting_beam": gen.pick(rng, ["RED", "BLUE"]),
+                  "max_limiting_amp": 40 * 2 * math.pi, "intermediate_detuning": 500 * 2 * math.pi,
+                  "controlled_beams": ["BLUE", "RED"]}}
+    other = {"id": "rg", "cls": "Rydberg", "addr": "Global", "max_amp": 15.0, "max_abs_detuning": 40.0, "clock_period": 1,
+             "min_duration": 1, "max_duration": None}
+    dev = {"kind": "virtual", "name": "EomEndDev", "dimensions": 2, "rydberg_level": 70, "min_atom_distance": 1,
+           "max_atom_num": None, "max_radial_distance": None, "channels": [ch, other], "dmm": []}
+    reg = {"kind": "reg", "ids": ["a", "b", "c"], "coords": [[0.0, 0.0], [0.0, 8.0], [8.0, 0.0]]}
+    mon = RenderMonitor(ctx)
+    r = prog.Runner(ctx, dev, reg, [mon])
+    rise = int(0.48 / bw * 1e3)
+    ops = [{"op": "declare_channel", "name": "loc", "ch_id": "rl", "initial_target": "a"},
+           {"op": "enable_eom_mode", "ch": "loc", "amp_on": gen.pick(rng, [4.5, 9.0]), "detuning_on": gen.pick(rng, [0.0, 0.0]), "opt_off": 0.0},
+           {"op": "add_eom_pulse", "ch": "loc", "duration": gen.pick(rng, [40, 100]), "phase": gen.pick(rng, [0.0, 1.0])},
+           {"op": "delay", "duration": 4 * (rise // 2 + 10) + gen.pick(rng, [0, 100]), "ch": "loc"},
+           {"op": "disable_eom_mode", "ch": "loc"},
+           {"op": "target", "qubits": gen.pick(rng, ["b", ["b", "c"]]), "ch": "loc"}]
+    if rng.random() < 0.5:
+        ops.append({"op": "declare_channel", "name": "glob", "ch_id": "rg"})
+        ops.append({"op": "add", "pulse": gen.gen_pulse(rng, other, d=gen.pick(rng, [16, 60]), pps_p=0.0, arb=0.0), "ch": "glob"})
+    if rng.random() < 0.5:
+        ops.append({"op": "add", "pulse": gen.gen_pulse(rng, ch, d=4 * gen.pick(rng, [4, 13]), pps_p=0.0, arb=0.0), "ch": "loc"})
+    for i, op in enumerate(ops):
+        if r.step(op).exc is not None:
+            ctx.count("eom_end_script_call_refused")
+            break
+        if op["op"] == "target":
+            c = snapshot(r.seq)["chans"]["loc"]
+            if c["slots"] and c["slots"][-1]["ti"] == c["slots"][-1]["tf"] and c["eom"] and c["eom"][-1][1] == c["slots"][-1]["ti"]:
+                ctx.count("zero_length_retargets_at_the_end_of_an_eom_block")
+            mon.check(r)
+    else:
+        ctx.count("eom_end_scripts_rendered")
+    r.finish()
+    ctx.mark_nontrivial(("eomendscript", idx))
+
+
 def run_case(ctx, idx, rng, tier):
+    if idx % 24 == 23:
+        return eom_end_retarget_script(ctx, idx, rng)
     if idx % 24 == 11:
         return ring_dmm_script(ctx, idx, rng)
     if idx % 12 == 5:
